@@ -6,20 +6,51 @@ from harness import lib_cross as L
 
 THEOREMS = 'Properties/C06.v'
 CLAIM = dict(
-    text='Coq theorems about the state-machine model Model/Cross.v of teneva.cross (whole driver: validation, '
-         '_func Kronecker batches, both branches of _func_eval, cache, _maxvol wrapper, _iter index update, both '
-         'pre-iteration passes, both half sweeps with their early-return branches, post-sweep block, _info_appr), '
-         'for every dimension, mode sizes, ranks, number of sweeps, objective (incl. None at any call), callback, '
-         'budget and numeric kernel: one inductive invariant gives index domain / distinctness of every batch, '
-         'budget and counter accounting (with and without cache), the stop contract, well-formed result of the '
-         'original shape at every exit, ValueError before any evaluation, termination (nswp; m without cache). '
-         'The model is tied to cross.py by exact replay of the recorded _maxvol picks / accuracy values: same '
-         'sequence of batches, counters, stop reason, sweep count, cache, core shapes.',
-    note='The numeric payload of cores is opaque in the model (theorems hold for every numeric kernel); "finite '
-         'entries" is a float fact and is checked at run time only (search oracle). maxvol contract (valid, distinct '
-         'rows, count within the dr_min/dr_max window) is a hypothesis (property C08), validated on every recorded call.',
-    technique='Coq proof (inductive invariant over a small-step machine) + exact replay correspondence + fault '
-              'enumeration (every budget / every None position / every callback sweep)')
+    text='Coq theorems (Properties/C06.v, 18 theorems + 5 non-vacuity examples) about the small-step model Model/Cross.v of '
+         'teneva.cross (whole driver: argument validation, _func Kronecker batches, both branches of _func_eval, cache, '
+         '_maxvol wrapper, _iter index update, both pre-iteration passes, both half sweeps with their early-return '
+         'branches, post-sweep block, _info_appr), for every dimension d >= 1, mode sizes, ranks, rank-growth window, '
+         'objective (incl. None at any call), callback, budget, initial cache and numeric kernel, proved by one '
+         'inductive invariant (Proofs/CrossInvC.v: Inv = geometry + control + accounting + request domain + progress) '
+         'over every reachable state: '
+         '[C06_requests_in_domain(_anytime)] every request assembled by _func and every batch handed to the objective is '
+         'a non-empty list of pairwise distinct rows of width d with entry k < n_k; '
+         '[C06_budget(_anytime), C06_asked_within_budget] info.m = number of indices handed to the objective in calls that returned values, '
+         'info.m <= m_max, everything ever handed to the objective (incl. the batch of a call answered None) fits into m_max, number of calls, info.m_cache = number of requested indices served from the cache; '
+         '[C06_budget_nocache_anytime] without cache every requested index is handed over, m_cache = 0; '
+         '[C06_budget_cache_anytime] with cache (objective returning arrays of the requested length) each request is '
+         'split exactly into known indices (initial cache or evaluated earlier) and new ones, only the new ones reach '
+         'the objective, so every index is evaluated at most once and never if initially cached; the cache holds exactly '
+         'the initial keys + evaluated indices, each with the value returned for it; '
+         '[C06_stop_contract, C06_stop_e, C06_stop_priority, C06_hit_spec, C06_stop_func_m_iff, C06_nswp_bound] a finished run reports '
+         'exactly one reason: m => budget set, newest request refused because m + new indices > m_max, objective not '
+         'called for it; func <=> newest request is a call that returned None (nothing is requested after a None or a '
+         'refusal); nswp => info.nswp = nswp exactly (never more sweeps than nswp); e => 0 <= info.e <= e finite; '
+         'e_vld => 0 <= info.e_vld <= e_vld finite for the reported value, or (partial, see note) the criterion was met '
+         'right after the pre-iteration; cb => the callback returned true for this sweep and conv did not fire; conv => '
+         'm_cache > scale*m; priority e_vld > e > nswp after at least one sweep; '
+         '[C06_interrupted_wf] at every exit (normal, budget / None at any call of either half sweep, callback) the '
+         'result has d cores of the original mode sizes, boundary ranks 1, matching neighbour ranks; '
+         '[C06_args_rejected] missing criteria => ValueError, independent of the objective; '
+         '[C06_terminates_nswp / _m / _m_nocache] the run returns within fuel > nswp sweeps, within fuel > (scale+1)*m '
+         'sweeps when a positive budget m is given (with or without cache, whatever the objective answers), within '
+         'fuel > m without cache. '
+         'The model is tied to cross.py / utils.py by exact replay of the recorded _maxvol picks / erank / accuracy '
+         'values on every run: same sequence of requests and batches, counters, stop reason, sweep count, cache '
+         'contents, core shapes; plus fault enumeration (every budget, every None position, every callback sweep).',
+    note='Partial / runtime-only parts: (1) the numeric payload of cores is opaque in the model (theorems hold for every '
+         'numeric kernel), so "finite entries" of the result is checked at run time only (search oracle). (2) e_vld '
+         'pending from the pre-iteration: when e_vld is already met after the pre-iteration the driver still evaluates '
+         'one batch, folds the unit factor into core 0 and recomputes info.e_vld; the theorem then states the threshold '
+         'for the value computed on the tensor entering the first sweep, the equality of the recomputed number with it '
+         'is a numeric fact checked at run time (oracle: reported e_vld <= threshold). (3) for runs with only e / e_vld '
+         'termination is not a property of the code: theorems speak about cross_m fuel = Ok s. (4) the maxvol contract '
+         '(valid, distinct rows, count within the dr window) is a hypothesis (property C08), validated on every '
+         'recorded call. (5) the cache theorems assume the objective returns arrays of the requested length (Python '
+         'raises IndexError otherwise; the model truncates).',
+    technique='Coq proof (inductive invariant over a small-step machine, schedule of the program counter, progress '
+              'measure m + m_cache) + exact replay correspondence + fault enumeration (every budget / every None '
+              'position / every callback sweep) + independent recount oracle on the implementation')
 TRUSTED = ['Coq 8.16.1 kernel + vm_compute (case evaluation only)',
            'hand-written model Model/Cross.v tied to cross.py / utils.py by exact replay correspondence',
            'maxvol / maxvol_rect contract: row numbers valid, pairwise distinct, count in [r+dr_min, min(n, r+dr_max)] '
@@ -85,6 +116,17 @@ def correspondence(R, ctx):
     cfgs = []
     for _ in range(1500 if thorough else 260):
         cfgs.append(('rand', L.gen_cfg(rng)))
+    # degenerate objectives (exactly zero fibres): delta / block-sparse / zero / zero unless i_0 = 0
+    for fam in ('delta', 'block', 'zero', 'i0'):
+        for cache in (True, False):
+            for dr_min in (0, 1, 2):
+                for _ in range(6 if thorough else 1):
+                    cfgs.append(('degen', L.gen_degen(rng, fam=fam, cache=cache, dr_min=dr_min)))
+    for _ in range(200 if thorough else 24):
+        cfgs.append(('degen', L.gen_degen(rng)))
+    # several criteria met by the same sweep: priority e_vld > e > nswp
+    for _ in range(120 if thorough else 16):
+        cfgs.append(('prio', L.gen_prio(rng)))
     # fault enumeration: every budget / None position / callback sweep
     for j in range(30 if thorough else 3):
         c0 = L.gen_cfg(rng, small=True, kind='nswp')
@@ -111,11 +153,15 @@ def correspondence(R, ctx):
                     if crit is None and hasI and hasy and e_vld is not None:
                         c['e_vld'] = 1e9      # e_vld alone is a legal criterion: make it fire
                     cfgs.append(('args', c))
-    contract_bad = []
+    contract_bad, toolong = [], []
     for tag, cfg in cfgs:
         try:
             it = _item(tn, cfg, tag)
         except L.TooLong:
+            # every generated configuration has a criterion that bounds the run (or must be rejected): a run that
+            # exceeds the call limit is a disagreement with the model (termination theorems), never skipped
+            toolong.append(dict(stream='cross_replay', input=[tag, L.describe(cfg)], model='terminates / ValueError',
+                                impl='objective called more than 4000 times'))
             continue
         o = it.pop('_o')
         items.append(it)
@@ -132,10 +178,15 @@ def correspondence(R, ctx):
                 contract_bad.append(dict(input=L.describe(cfg), **b))
     bad = C.exact_corr(R, 'cross_replay', L.HEADER, items, chunk=max(4, len(items) // 32), norm=L.norm_model_full,
                        distribution=dist)
-    R.corr.append(dict(name='maxvol contract on recorded calls', cases=len(items), mismatches=0,
-                       comparison='contract (valid distinct rows, count window); a miss is reported as a note: it is '
-                                  'property C08, the C06 theorems are conditional on it',
+    R.corr.append(dict(name='maxvol contract on recorded calls', cases=len(items), mismatches=len(contract_bad),
+                       comparison='contract (valid distinct rows, count window) on every recorded _maxvol call, incl. '
+                                  'the degenerate-objective family; the C06 theorems are conditional on it, so a miss '
+                                  'breaks the check (the search then looks for the property-level consequence)',
                        distribution=dict(violations=len(contract_bad)), first_mismatches=contract_bad[:3]))
+    R.corr.append(dict(name='runs that exceed the call limit', cases=len(cfgs), mismatches=len(toolong),
+                       comparison='the model terminates (C06_terminates_*) or rejects the arguments', distribution={},
+                       first_mismatches=toolong[:3]))
+    bad = toolong + bad
     if contract_bad:
         R.notes.append(f'maxvol contract violated on {len(contract_bad)} recorded calls (C08 territory): '
                        f'{contract_bad[0]}')
@@ -207,7 +258,7 @@ def oracle(tn, cfg):
         exp = {tuple(k): float(v) for k, v in cfg['cache']}
         for b in rec['batches']:
             if b['ok']:
-                for i, v in zip(b['I'].tolist(), L.gfun(cfg['a'], cfg['b'], cfg['p'], b['I'])):
+                for i, v in zip(b['I'].tolist(), L.objective(cfg, b['I'])):
                     exp[tuple(i)] = float(v)
         if o['cache'] != exp or any(not isinstance(k, tuple) for k in o['cache']):
             return fail('cache does not hold exactly the evaluated index -> value pairs',
@@ -236,6 +287,17 @@ def oracle(tn, cfg):
     if o['cbrec'] != list(range(1, len(o['cbrec']) + 1)) or (o['cbrec'] and o['cbrec'][-1] != info['nswp'] and
                                                              stop not in ('m', 'func')):
         return fail('callback not called once per sweep', got=[o['cbrec'], info['nswp']])
+    if stop == 'cb' and info['m_cache'] > cfg['scale'] * info['m']:
+        return fail('stop cb although the conv rule (checked first) holds', got=[info['m_cache'], info['m']])
+    if info['nswp'] >= 1:
+        # priority of _info_appr (values reported by a post-sweep stop are those the decision was taken on)
+        hit_ev = cfg['e_vld'] is not None and 0 <= info['e_vld'] <= cfg['e_vld'] and not np.isinf(info['e_vld'])
+        hit_e = cfg['e'] is not None and 0 <= info['e'] <= cfg['e'] and not np.isinf(info['e'])
+        if stop == 'e' and hit_ev:
+            return fail('stop e although the e_vld criterion (higher priority) is met', got=[info['e'], info['e_vld']])
+        if stop == 'nswp' and (hit_e or hit_ev):
+            return fail('stop nswp although the e / e_vld criterion (higher priority) is met',
+                        got=[info['e'], info['e_vld']])
     if stop == 'conv' and not info['m_cache'] > cfg['scale'] * info['m']:
         return fail('stop conv inconsistent with the counters', got=[info['m_cache'], info['m']])
     if cfg['nswp'] is not None and info['nswp'] > cfg['nswp']:
@@ -269,6 +331,17 @@ def search(R, ctx, deep, hints):
             pass
     for _ in range(1500 if deep else 250):
         cand.append(L.gen_cfg(rng))
+    for _ in range(60 if deep else 12):
+        cand.append(L.gen_prio(rng))
+    # degenerate objectives (zero fibres): every family x cache x dr_min, small budgets too
+    for fam in ('delta', 'block', 'zero', 'i0'):
+        for cache in (True, False):
+            for dr_min in (0, 1, 2):
+                for bud in (False, True):
+                    for _ in range(3 if deep else 1):
+                        cand.append(L.gen_degen(rng, fam=fam, cache=cache, dr_min=dr_min, budget=bud))
+    for _ in range(200 if deep else 30):
+        cand.append(L.gen_degen(rng))
     for j in range(12 if deep else 3):
         c0 = L.gen_cfg(rng, small=not deep or j % 2 == 0, kind='nswp')
         c0['nswp'] = rng.choice([1, 2])
